@@ -446,7 +446,36 @@ func c08nostate(c *core.Ctx, r *core.Reporter) {
 			r.Decide(len(bad) == 0, rule, key, c.Pos(pos), fmt.Sprintf("stores into fields of the receiver: %v", bad))
 		}
 	}
+	// the code objects of package slip itself (Lambda, Dynamic, Function, the forward placeholder, WhopLoc, ...):
+	// their Eval, Call and BoundCall methods are evaluated any number of times too
+	var fns []*ssa.Function
+	for _, fn := range c.ModuleFuncs() {
+		if fn.Pkg == nil || fn.Pkg.Pkg.Path() != core.SlipPath || fn.Parent() != nil || fn.Signature.Recv() == nil || seen[fn] || len(fn.Params) == 0 {
+			continue
+		}
+		switch fn.Name() {
+		case "Eval", "Call", "BoundCall", "Apply":
+		default:
+			continue
+		}
+		if _, isPtr := fn.Signature.Recv().Type().(*types.Pointer); !isPtr {
+			continue
+		}
+		fns = append(fns, fn)
+	}
+	sort.Slice(fns, func(i, j int) bool { return core.SSAName(fns[i]) < core.SSAName(fns[j]) })
+	for _, fn := range fns {
+		bad, pos := selfStores(fn)
+		key := core.SSAName(fn)
+		if why, ok := nostateExceptions[key]; ok && len(bad) > 0 {
+			r.Hold(rule, key, c.Pos(pos), "accepted by reading: "+why)
+			continue
+		}
+		r.Decide(len(bad) == 0, rule, key, c.Pos(pos), fmt.Sprintf("stores into fields of the receiver: %v", bad))
+	}
 }
+
+var nostateExceptions = map[string]string{}
 
 // selfStores lists the fields of its own function object that method fn (a Call or Place), the closures it
 // creates and the methods it calls on itself store into.
